@@ -5547,13 +5547,23 @@ class DfaCompileCtx:
 
         for state in self.dfa.states:
             for transition in state.transitions:
+                overflowing = []
                 if transition.is_fallthrough:
                     symbols = transition.on_values
                 elif DFTransition.End in transition.on_values and not transition.error_handling:
                     # a matched `end` consumes nothing either: end() goes on from its target with end-of-input still ahead
                     symbols = [DFTransition.End]
                 else:
-                    continue
+                    # An appended match that does not fit leaves for its out-of-space handler with the byte still to be consumed. Back here with that
+                    # byte, and no room made in between, it cannot fit either.
+                    overflowing = [sub for action in transition.actions for sub in action.all_subactions() if isinstance(sub, AppendTo)]
+                    if not overflowing:
+                        continue
+                    symbols = transition.on_values
+
+                def makes_room(step):
+                    return any(isinstance(sub, DeleteBuf) and all(sub.into_storage is append.into_storage for append in overflowing)
+                               for action in step.actions for sub in action.all_subactions())
 
                 def stays_in_place(t):
                     return t.is_fallthrough or (symbols == [DFTransition.End] and DFTransition.End in t.on_values and not t.error_handling)
@@ -5577,12 +5587,20 @@ class DfaCompileCtx:
                         real_target = x[symbols]
                         steps = [real_target] if real_target and stays_in_place(real_target) else []
                     for step in steps:
+                        if overflowing and makes_room(step):
+                            continue
                         for target in leads_to(step):
                             if target not in visited:
                                 visited.add(target)
                                 aux(target)
                 
-                aux(state)
+                if overflowing:
+                    for handler in [target for append in overflowing for target in append.get_target_override_targets()]:
+                        if handler not in visited:
+                            visited.add(handler)
+                            aux(handler)
+                else:
+                    aux(state)
 
                 if state in visited:
                     raise IllegalDFAStateError("Infinite loop due to self-referential fallthrough", transition)
